@@ -504,6 +504,7 @@ func run(c *engine.Ctx) {
 						src = fmt.Sprintf("def f(a: Int, b: Int): Int then a.%s(b)\nprintln(f(%s, 0).inspect)", sym, lit(a))
 					}
 					res := elkrun.Run(elkrun.ShowPrelude+src, nil)
+					elkrun.ResetRuntime() // `def f` is redefined by the next program
 					r.Eval(1)
 					r.NT(1)
 					if res.Panic != "" {
